@@ -58,6 +58,7 @@ theorem tok_wYield : tok (some .wYield) = 0 := rfl
 theorem tok_wResched : tok (some .wResched) = 1 := rfl
 theorem tok_rWait : tok (some .rWait) = 0 := rfl
 theorem tok_rCount : tok (some .rCount) = 0 := rfl
+theorem tok_rLoad : tok (some .rLoad) = 0 := rfl
 theorem own_none : own none = 0 := rfl
 theorem own_sE0 (m : Nat) : own (some (.sE0 m)) = 0 := rfl
 theorem own_sE1 (m : Nat) : own (some (.sE1 m)) = 0 := rfl
@@ -86,6 +87,7 @@ theorem own_wYield : own (some .wYield) = 1 := rfl
 theorem own_wResched : own (some .wResched) = 0 := rfl
 theorem own_rWait : own (some .rWait) = 0 := rfl
 theorem own_rCount : own (some .rCount) = 0 := rfl
+theorem own_rLoad : own (some .rLoad) = 0 := rfl
 theorem inRecvPc_none : inRecvPc none = 0 := rfl
 theorem inRecvPc_sE0 (m : Nat) : inRecvPc (some (.sE0 m)) = 0 := rfl
 theorem inRecvPc_sE1 (m : Nat) : inRecvPc (some (.sE1 m)) = 0 := rfl
@@ -114,6 +116,7 @@ theorem inRecvPc_wYield : inRecvPc (some .wYield) = 0 := rfl
 theorem inRecvPc_wResched : inRecvPc (some .wResched) = 0 := rfl
 theorem inRecvPc_rWait : inRecvPc (some .rWait) = 0 := rfl
 theorem inRecvPc_rCount : inRecvPc (some .rCount) = 0 := rfl
+theorem inRecvPc_rLoad : inRecvPc (some .rLoad) = 0 := rfl
 
 /-! ### sums over the thread list -/
 
